@@ -408,7 +408,7 @@ func (r *posRunner) hooks() *chain.Hooks {
 					switch e.Tx.Msg {
 					case "unjail":
 						p = "C09"
-					case "send", "send_pool":
+					case "send", "send_pool", "send_module":
 						p = "C02"
 					}
 					why := out.Why
@@ -433,7 +433,7 @@ func (r *posRunner) hooks() *chain.Hooks {
 					r.res.Transitions++
 					return
 				}
-				if okGot && e.Tx.Msg == "send_pool" {
+				if okGot && (e.Tx.Msg == "send_pool" || e.Tx.Msg == "send_module" && chain.ModuleAddr(e.Tx.Key) == chain.PoolAddr) {
 					r.direct.Add(r.direct, big.NewInt(e.Tx.Amount))
 				}
 				if okGot {
